@@ -3,7 +3,7 @@
 //! or `Environment::None`; closures as a slice of `&mut dyn FnMut`).  No allocator at all.
 //!
 //! Plan tokens (arguments): bin=<path> arg=<a> (0..2) envnone=1 cwd=<dir> uid= gid= pg=
-//!   in=|out=|err=<inherit|null|pipe|fd:N>  pre=<code> (0..2)  wait=try
+//!   in=|out=|err=<inherit|null|pipe|fd:N>  pre=<code> (0..2)  wait=<wait|try|poll>,..
 //! Reporting through markers only, exactly like probe/spawnp.
 #![no_std]
 #![no_main]
@@ -86,7 +86,8 @@ pub fn main() -> i32 {
     let mut pres = [0i32; 2];
     let mut npre = 0;
     let mut envnone = false;
-    let mut try_mode = false;
+    let mut ops: [&[u8]; 4] = [b"", b"", b"", b""];
+    let mut nops = 0;
     let mut feed: Option<&[u8]> = None;
     for a in tiny_std::env::args_os().skip(1) {
         let s = a.as_slice();
@@ -113,7 +114,14 @@ pub fn main() -> i32 {
                 pres[npre] = num(v);
                 npre += 1;
             }
-            b"wait" => try_mode = v == b"try",
+            b"wait" => {
+                for o in v.split(|&c| c == b',') {
+                    if !o.is_empty() && nops < 4 {
+                        ops[nops] = o;
+                        nops += 1;
+                    }
+                }
+            }
             b"feed" => feed = Some(v),
             b"bulk" => {} // iterator forms of the builder do not exist without alloc
             _ => return 2,
@@ -169,31 +177,40 @@ pub fn main() -> i32 {
             use tiny_std::io::Write as _;
             let _ = p.write(f);
         }
-        let waited = if try_mode {
-            drop(child.stdin.take());
-            loop {
-                match child.try_wait() {
-                    Ok(Some(st)) => break Ok(st),
-                    Ok(None) => unsafe {
-                        let ts: [i64; 2] = [0, 2_000_000];
-                        sc::syscall!(NANOSLEEP, ts.as_ptr(), 0);
-                    },
-                    Err(e) => break Err(e),
+        for op in ops[..nops].iter() {
+            let r: tiny_std::Result<Option<i32>> = match *op {
+                b"wait" => child.wait().map(Some),
+                b"try" => child.try_wait(),
+                _ => {
+                    drop(child.stdin.take());
+                    loop {
+                        match child.try_wait() {
+                            Ok(None) => unsafe {
+                                let ts: [i64; 2] = [0, 2_000_000];
+                                sc::syscall!(NANOSLEEP, ts.as_ptr(), 0);
+                            },
+                            other => break other,
+                        }
+                    }
+                }
+            };
+            m.n = 0;
+            let _ = m.write_str("MARK:waited:");
+            let _ = m.write_str(core::str::from_utf8(op).unwrap_or("?"));
+            match r {
+                Ok(Some(st)) => {
+                    let _ = write!(m, ":ok:{st}");
+                }
+                Ok(None) => {
+                    let _ = m.write_str(":none:0");
+                }
+                Err(e) => {
+                    let _ = m.write_str(":err:");
+                    err_code(&e, &mut m);
                 }
             }
-        } else {
-            child.wait()
-        };
-        match waited {
-            Ok(st) => {
-                let _ = write!(m, "MARK:waited:ok:{st}");
-            }
-            Err(e) => {
-                let _ = m.write_str("MARK:waited:err:");
-                err_code(&e, &mut m);
-            }
+            mark(&m.b[..m.n]);
         }
-        mark(&m.b[..m.n]);
     }
     mark(b"MARK:spawn:end");
     0
